@@ -3,16 +3,16 @@ import json, subprocess, sys
 pid, wt = sys.argv[1], sys.argv[2]
 base = subprocess.check_output([sys.executable, "/verif/tools/agent_prompt.py", pid, wt]).decode()
 tried = {
- "C01": ["max/min VJP writing through ravel() for F-ordered inputs", "x ** p fast path dropping a 0-d tensor exponent from the graph"],
- "C02": ["norm VJP giving NaN at exact zeros for 1<ord<2", "where() keeping a non-boolean condition so ~cond is bitwise"],
- "C04": ["shape setter registering the placeholder on the owner instead of the parent", "in-place copy of the base losing its memory layout"],
- "C05": ["where-mask that selects nothing skipping ApplyMask", "out= with all-constant operands making the target constant"],
- "C07": ["placeholder view-children held strongly (reference cycle)", "gradients not nulled when a view-capable op actually copies"],
- "C08": ["waiting views never unlocked because the cleanup looks at the wrong table", "base of an out= view not locked when already tracked"],
- "C09": ["cleared-graph check moved from op inputs to leaf tensors", "gradient nulling at backprop start limited to view-related tensors"],
- "C13": ["lock release of a failed op tied to the Operation's lifetime", "read-only check placed after graph duplication, outside the rollback"],
- "C12": ["copy-before-store rule narrowed to `base is grad`", "Tensor.copy() sharing the gradient array"],
- "C14": ["seed stored on L before validation", "out-of-place accumulation returning a NumPy scalar for 0-d"],
+ "C01": ["max/min VJP writing through ravel() for F-ordered inputs", "x ** p fast path dropping a 0-d tensor exponent from the graph", "where-mask applied once to the incoming gradient so pass-through ops store the same array for both operands", "memoised quotient in MultiplySequence.backward_var"],
+ "C02": ["norm VJP giving NaN at exact zeros for 1<ord<2", "where() keeping a non-boolean condition so ~cond is bitwise", "logaddexp VJP through one cached ratio (inf/inf)", "x ** p shortcut extended to 0-d tensor exponents"],
+ "C04": ["shape setter registering the placeholder on the owner instead of the parent", "in-place copy of the base losing its memory layout", "in-place through an explicitly non-constant view flipping the constant base's flag", "view detection recognising only views whose .base is the memory owner (ndarray subclasses)"],
+ "C05": ["where-mask that selects nothing skipping ApplyMask", "out= with all-constant operands making the target constant", "repeated-index masking missing Tensor-typed index arrays", "ApplyMask applying a broadcast mask along the wrong axes"],
+ "C07": ["placeholder view-children held strongly (reference cycle)", "gradients not nulled when a view-capable op actually copies", "ApplyMask keeping itself alive through a table of bound methods", "a disconnected view falling back on the gradient of an earlier pass"],
+ "C08": ["waiting views never unlocked because the cleanup looks at the wrong table", "base of an out= view not locked when already tracked", "failed op releasing its locks only for ValueError/TypeError", "UnView op built with the memory guard off"],
+ "C09": ["cleared-graph check moved from op inputs to leaf tensors", "gradient nulling at backprop start limited to view-related tensors", "in-place update honouring an explicit constant=True", "clear_graph releasing the locks of live view children early"],
+ "C13": ["lock release of a failed op tied to the Operation's lifetime", "read-only check placed after graph duplication, outside the rollback", "rollback of the view-children bookkeeping restoring the mutated object", "lingering-base drop moved before the forward call"],
+ "C12": ["copy-before-store rule narrowed to `base is grad`", "Tensor.copy() sharing the gradient array", "gru backward writing into the caller's seed", "get-item backward wrapping negative entries of the caller's index array in place"],
+ "C14": ["seed stored on L before validation", "out-of-place accumulation returning a NumPy scalar for 0-d", "a Tensor seed skipping the dtype cast", "gru storing X's gradient in the widest dtype"],
  "C06": ["first contribution that is a view copied C-ordered", "pre-clear pull of the view gradient skipped when the view has no own gradient"],
  "C10": ["explicit constant= overriding an out= target's flag", "multi_matmul taking the trailing vector's flag from the first operand"],
  "C11": ["** with 0-d tensor exponent taking the unary shortcut", "rounding/modulo guard checking only the dispatching tensor"],
